@@ -140,8 +140,7 @@ def todo_ops_inside(w, rnd, depth=0):
         elif r < 0.55:
             ops.append((52, [tid]))
         elif r < 0.7 and depth == 0:
-            nid = 50 + w.nblock
-            ops.append((50, [nid, rnd.choice([1, 2]), rnd.choice([0, 2, 6]) * MS if rnd.random() < 0.5 else rnd.choice([0, 2, 6]), 0]))
+            ops.append((50, [-1, rnd.choice([1, 2]), rnd.choice([0, 2, 6]) * MS if rnd.random() < 0.5 else rnd.choice([0, 2, 6]), 0]))
         elif r < 0.78:
             ops.append((43, []))
         elif r < 0.82:
@@ -219,7 +218,7 @@ def handler_ops(w, rnd, kind, own):
         if rnd.random() < 0.4 and w.pools:
             ops.append((62, [own, w.pools[0], rnd.choice([0, 1, 100]), rnd.choice([1, 2, 3])]))
     if rnd.random() < 0.15:
-        ops.append((50, [40 + w.nblock, 2, rnd.choice([0, 3]), 0]))
+        ops.append((50, [-1, 2, rnd.choice([0, 3]), 0]))
     if rnd.random() < 0.05:
         ops.append((43, []))
     return ops
@@ -351,3 +350,308 @@ def generate_driver(rnd, tier, n_quick=400, what=("todo", "async")):
     for j, c in enumerate(cases):
         c.id = "%s-%d" % (c.id, j)
     return grow(cases, chooser, rnd)
+
+
+# ---------------------------------------------------------------------------------------------------------------
+# monitors: the properties, judged on the implementation's trace
+# ---------------------------------------------------------------------------------------------------------------
+INT_MAX = 2147483647
+
+
+def crashed(tr):
+    for k, a in tr:
+        if k == 98:
+            return "process died (signal/exit %s)" % a
+    return None
+
+
+def ops_of(c):
+    """top-level ops (blocks removed) in order"""
+    top, cur = [], None
+    for o, a in c.ops:
+        if cur is None:
+            if o == 1:
+                cur = a[0]
+            else:
+                top.append((o, a))
+        elif o == 2:
+            cur = None
+    return top
+
+
+def monitor_todos(c, tr):
+    """C06 (+ the Step clauses of C07): never early, due order, exactly once, cancel, shift, promptness, poll bound"""
+    cr = crashed(tr)
+    if cr:
+        return cr
+    pending, seq = {}, 0
+    last_now = None
+    driver = False
+    in_step = False
+    step_first_now = None
+    step_handlers = 0
+    step_pending_at_start = None
+    top = ops_of(c)
+    ti = 0
+    for idx, (k, a) in enumerate(tr):
+        if k == 1:
+            last_now = a[0]
+            if in_step and step_first_now is None:
+                step_first_now = a[0]
+        elif k == 21 and a[0] == 5:
+            tid = a[1]
+            if tid not in pending:
+                return "task of ToDo %d executed although it is not scheduled (cancelled, superseded or already run)" % tid
+            when, s = pending[tid]
+            if last_now is None or when > last_now:
+                return "task of ToDo %d executed at %s, before its due time %d" % (tid, last_now, when)
+            m = min(pending.items(), key=lambda kv: (kv[1][0], kv[1][1]))
+            if m[0] != tid:
+                return "task of ToDo %d (due %d) executed before ToDo %d (due %d, scheduled earlier)" % (tid, when, m[0], m[1][0])
+            del pending[tid]
+            step_handlers += 1
+        elif k == 2 and driver and len(a) > 3 and a[3] == c.meta.get("pipe_fd"):
+            # poll of Step: never sleeps past the earliest pending ToDo
+            t = a[0]
+            if pending and last_now is not None:
+                mw = min(w for w, _ in pending.values())
+                if t < 0:
+                    return "Step polls with unlimited time-out although ToDo due at %d is pending (now %d)" % (mw, last_now)
+                if c.meta.get("instant") and mw > last_now and last_now + t * MS > mw:
+                    return "Step polls %d ms at %d: sleeps past the ToDo due at %d" % (t, last_now, mw)
+                if mw <= last_now and t > 0 and False:
+                    return "Step polls although a ToDo is due"
+        elif k == 20:
+            opc, ok = a[0], a[1]
+            if opc == 40 and ok:
+                driver = True
+            elif opc == 44:
+                driver = False
+                pending.clear()
+            elif opc == 50 and ok:
+                tid, kind, val = a[2], a[3], a[4]
+                if kind == 1:
+                    pending[tid] = (val, seq); seq += 1
+                elif kind == 2:
+                    pending[tid] = (last_now + val * MS, seq); seq += 1
+            elif opc == 51 and ok and driver:
+                tid, kind, val = a[2], a[3], a[4]
+                pending[tid] = (val if kind == 1 else last_now + val * MS, seq); seq += 1
+            elif opc == 52 and ok and driver:
+                pending.pop(a[2], None)
+            if opc in (41, 42):
+                # promptness: a Step entered with the front due runs it (if nothing threw)
+                if ok and step_pending_at_start and step_first_now is not None and opc == 41:
+                    mid, (mw, _) = min(step_pending_at_start.items(), key=lambda kv: (kv[1][0], kv[1][1]))
+                    if mw <= step_first_now and step_handlers == 0:
+                        return "Step returned without running ToDo %d that was due (%d <= %d) on entry" % (mid, mw, step_first_now)
+                in_step = False
+        # a step begins right after the previous top-level result: detect via state reports (code 25 closes an op)
+        if k == 25 or (k == 20 and a[0] == 40):
+            # next op starts
+            in_step = True
+            step_first_now = None
+            step_handlers = 0
+            step_pending_at_start = dict(pending)
+    # todo list report must agree with pending (internal-state cross check is done by the correspondence, not here)
+    return None
+
+
+def monitor_step_timeouts(c, tr):
+    """C07: Step(T) — bounded by T from above, full wait when nothing happens, never past a ToDo (see monitor_todos)"""
+    if c.meta.get("kind") not in ("todo", "async"):
+        return None
+    r = monitor_todos(c, tr) if c.meta.get("kind") == "todo" else None
+    if r:
+        return r
+    top = ops_of(c)
+    # split by top-level results
+    seg, oi = [], 0
+    instant = c.meta.get("instant", False)
+    for k, a in tr:
+        if k == 20 and a[0] in (41,):
+            polls = [x for kk, x in seg if kk == 2 and len(x) > 3 and x[3] == c.meta.get("pipe_fd")]
+            handlers = [x for kk, x in seg if kk == 21]
+            # which T? the i-th step op
+            steps = [o for o in top if o[0] in (41,)]
+            if oi < len(steps):
+                T = steps[oi][1][0]
+                oi += 1
+                if abs(T) < 2 ** 31:
+                    honest = all(p[2] <= p[0] * MS for p in polls if p[0] >= 0)
+                    elapsed = sum(p[2] for p in polls)
+                    if T >= 0 and any(p[0] < 0 for p in polls):
+                        return "Step(%d) polled with an unlimited time-out" % T
+                    if T >= 0 and any(p[0] > T for p in polls):
+                        return "Step(%d) polled with a larger time-out %s" % (T, [p[0] for p in polls])
+                    if T == 0 and any(p[0] != 0 for p in polls):
+                        return "Step(0) polled with %s" % [p[0] for p in polls]
+                    if T > 0 and instant and honest and elapsed > T * MS:
+                        return "Step(%d) blocked %d ns" % (T, elapsed)
+            seg = []
+        elif k == 25:
+            seg = []
+        else:
+            seg.append((k, a))
+    return None
+
+
+def monitor_async(c, tr):
+    """C02 / C03 / C09(async) / C15 / C17 clauses that are visible in a sequential history"""
+    cr = crashed(tr)
+    if cr:
+        return cr
+    for k, a in tr:
+        if k == 90:
+            return "content / queue check failed at the libc boundary or in a handler: %s" % a
+    socks = {}        # key -> state
+    fd2key = {}
+    futs = {}
+    accept_peers = [a[1] for k, a in c.evs if k == 7]
+    n_accept = 0
+    expect = None     # (key, what) the next handler event must be
+    in_step = False
+
+    def S(key):
+        return socks.setdefault(key, {"q": [], "disc": 0, "alive": True, "async": False, "fd": None, "kind": 0, "peer": None})
+
+    def kill(key):
+        s = socks.get(key)
+        if s:
+            s["alive"] = False
+            for f, size in s["q"]:
+                futs[f]["must_break"] = True
+            s["q"] = []
+
+    for idx, (k, a) in enumerate(tr):
+        if k == 20:
+            opc, ok = a[0], a[1]
+            if expect and opc in (41, 42) and ok:
+                return "after %s the handler of socket %d was not invoked" % (expect[1], expect[0])
+            expect = None
+            if opc in (20, 21, 22) and ok:
+                fd, key = a[2], a[3]
+                kill(key)
+                socks[key] = {"q": [], "disc": 0, "alive": True, "async": False, "fd": fd, "kind": opc - 19,
+                              "peer": 100 + key if opc == 20 else None}
+                fd2key[fd] = key
+            elif opc == 27 and ok and a[2] == 1:
+                fd, key = a[4], a[5]
+                kill(key)
+                socks[key] = {"q": [], "disc": 0, "alive": True, "async": False, "fd": fd, "kind": 1, "peer": a[3]}
+                fd2key[fd] = key
+            if opc == 60 and ok:
+                S(a[2])["async"] = True
+                S(a[2])["disc"] = 0
+            elif opc == 63 and ok and len(a) > 4:
+                key, fd = a[3], a[4]
+                kill(key)
+                socks[key] = {"q": [], "disc": 0, "alive": True, "async": True, "fd": fd, "kind": 1,
+                              "peer": accept_peers[n_accept - 1] if 0 < n_accept <= len(accept_peers) else None}
+                fd2key[fd] = key
+            elif opc == 28 and ok:
+                kill(a[2])
+            elif opc in (61, 62) and ok:
+                f, key, size, dst = a[2], a[3], a[4], a[5]
+                futs[f] = {"sock": key, "size": size, "state": 0, "acc": 0, "udp": opc == 62, "dst": dst}
+                S(key)["q"].append((f, size))
+        elif k == 22:
+            f, st = a[0], a[1]
+            if f not in futs:
+                return "unknown future %d reported" % f
+            fu = futs[f]
+            if fu["state"] != 0:
+                return "future %d became ready twice" % f
+            fu["state"] = st
+            if st == 1:
+                if not fu.get("done"):
+                    return "future %d has a value although only %d of %d bytes were accepted by the OS" % (f, fu["acc"], fu["size"])
+                for g, gu in futs.items():
+                    if g < f and gu["sock"] == fu["sock"] and gu["state"] == 0 and not gu.get("must_break"):
+                        return "future %d ready before the earlier future %d of the same socket" % (f, g)
+            elif st == 3:
+                if not fu.get("must_break"):
+                    return "future %d reports a broken promise although its socket was not destroyed" % f
+            elif st == 2:
+                if not fu.get("failed"):
+                    return "future %d carries an exception although no send of its buffer failed" % f
+        elif k == 8 and a[0] == 11:
+            fd2key.pop(a[1], None)
+        elif k in (3, 5):
+            fd = a[0]
+            if k == 3 and a[2] != 16384:
+                return "send() on fd %d without MSG_NOSIGNAL (flags %d)" % (fd, a[2])
+            key = fd2key.get(fd)
+            s = socks.get(key)
+            if s and s.get("async"):
+                if not s["q"]:
+                    return "send on socket %d with an empty queue" % key
+                f, size = s["q"][0]
+                fu = futs[f]
+                ln, r = a[1], a[3]
+                if k == 3:
+                    if ln != size - fu["acc"]:
+                        return "send() offered %d bytes of buffer %d, %d are unsent" % (ln, f, size - fu["acc"])
+                    if r < 0:
+                        fu["failed"] = True; s["q"].pop(0)
+                    elif r > 0 or ln == 0:
+                        fu["acc"] += r
+                        if fu["acc"] == size:
+                            fu["done"] = True; s["q"].pop(0)
+                else:
+                    if ln != size or a[2] != fu["dst"]:
+                        return "sendto(len %d, dst %d) for datagram %d (size %d, dst %d)" % (ln, a[2], f, size, fu["dst"])
+                    if r < 0:
+                        fu["failed"] = True; s["q"].pop(0)
+                    elif r == ln:
+                        fu["done"] = True; s["q"].pop(0)
+        elif k == 4:
+            fd, size, r = a
+            key = fd2key.get(fd)
+            s = socks.get(key)
+            if s and s.get("async"):
+                expect = (key, "recv() = %d" % r, 1 if r > 0 else 2, r)
+        elif k == 7:
+            n_accept += 1
+        elif k == 21:
+            kind = a[0]
+            if kind in (1, 2, 4):
+                key = a[1]
+                s = S(key)
+                if s.get("disc") and kind in (1, 2):
+                    return "handler (kind %d) of socket %d ran after its disconnect handler" % (kind, key)
+                if expect and expect[0] == key:
+                    if kind != expect[2]:
+                        return "after %s socket %d got handler kind %d" % (expect[1], key, kind)
+                    if kind == 1 and a[3] != expect[3]:
+                        return "receive handler of socket %d got %d bytes, recv() delivered %d" % (key, a[3], expect[3])
+                    expect = None
+                elif kind == 1:
+                    return "receive handler of socket %d without a recv()" % key
+                if kind == 2:
+                    s["disc"] = 1
+                    if s.get("peer") is not None and a[2] != s["peer"]:
+                        return "disconnect handler of socket %d got peer %d, socket was created for %d" % (key, a[2], s["peer"])
+                if kind == 1 and a[3] <= 0:
+                    return "receive handler got an empty buffer"
+            elif kind == 3:
+                if 0 < n_accept <= len(accept_peers) and a[2] != accept_peers[n_accept - 1]:
+                    return "connect handler got peer %d, accept() reported %d" % (a[2], accept_peers[n_accept - 1])
+        # remember descriptors
+        if k == 20 and a[1] == 1:
+            opc = a[0]
+            if opc in (20, 21, 22) and len(a) > 2:
+                pass
+    # at the end: no future of a destroyed socket is still pending
+    for f, fu in futs.items():
+        if fu.get("must_break") and fu["state"] == 0:
+            return "future %d of a destroyed socket is still pending (dangling promise)" % f
+    return None
+
+
+def attach_fds(c, tr):
+    """map descriptor -> socket key from the results of the creating operations (top-level order)"""
+    m = {}
+    top = ops_of(c)
+    ti = 0
+    return m
